@@ -241,6 +241,7 @@ pub fn run_main(def: PropDef) -> ! {
     }
 
     if let Some(path) = arg_value(&args, "--replay") {
+        crate::util::install_quiet_panic_hook();
         let text = std::fs::read_to_string(&path).unwrap_or_else(|e| {
             eprintln!("cannot read replay file {}: {}", path, e);
             std::process::exit(2)
